@@ -76,6 +76,15 @@ type modInfo struct {
 	direct  map[string]bool
 	callees map[*types.Func]bool
 	cbs     map[string]bool // callback fields invoked directly ("Type.field")
+	// condWrites: a pointer-receiver method called on an addressable struct value writes that location only if the
+	// method writes fields of its receiver type
+	condWrites []condWrite
+}
+
+type condWrite struct {
+	callee *types.Func
+	prefix string // "F:<receiver type>."
+	keys   map[string]bool
 }
 
 func (p *Program) buildModsets() {
@@ -112,6 +121,9 @@ func (p *Program) buildModsets() {
 							ch = true
 						}
 					}
+				}
+				if resolveCondWrites(p, mi, s, base) {
+					ch = true
 				}
 			}
 		}
@@ -180,6 +192,9 @@ func (p *Program) buildModsets() {
 						changed = true
 					}
 				}
+			}
+			if resolveCondWrites(p, mi, s, sets) {
+				changed = true
 			}
 		}
 	}
@@ -471,7 +486,14 @@ func (p *Program) scanWrites(fi *FuncInfo, body ast.Node, mi *modInfo) {
 							// pointer-receiver method on an addressable struct value writes that location
 							if sig := fn.Type().(*types.Signature); sig.Recv() != nil && isPointer(sig.Recv().Type()) {
 								if bt := info.Types[f.X].Type; bt != nil && !isPointer(bt) && !isInterface(bt) {
+									// ... if the method writes fields of its receiver type (resolved in the fixpoint)
+									elem := sig.Recv().Type().Underlying().(*types.Pointer).Elem()
+									tmp := &modInfo{direct: map[string]bool{}, callees: map[*types.Func]bool{}, cbs: map[string]bool{}}
+									saved := mi.direct
+									mi.direct = tmp.direct
 									lhs(f.X)
+									mi.direct = saved
+									mi.condWrites = append(mi.condWrites, condWrite{fn, "F:" + shortTypeName(elem) + ".", tmp.direct})
 								}
 							}
 						}
@@ -668,6 +690,7 @@ func (e *Exec) calleeKeysOf(body ast.Node, extra []ast.Node) map[string]bool {
 			}
 		}
 	}
+	resolveCondWrites(e.P, mi, out, e.P.modsets)
 	return out
 }
 
@@ -737,6 +760,15 @@ func (e *Exec) modKeysOf(body ast.Node, extra []ast.Node) map[string]bool {
 	for cal := range mi.callees {
 		for k := range e.P.ModSet(cal) {
 			out[k] = true
+		}
+	}
+	e.P.buildModsets()
+	resolveCondWrites(e.P, mi, out, e.P.modsets)
+	for cb := range mi.cbs {
+		for _, impl := range e.P.cbImplsOf(cb) {
+			for k := range e.P.ModSet(impl) {
+				out[k] = true
+			}
 		}
 	}
 	// register keys that are not yet known to this run (so that havoc covers them if used later)
@@ -994,4 +1026,32 @@ func (p *Program) CallbackRegistrationNotes() []string {
 	}
 	sortStrings(out)
 	return out
+}
+
+// resolveCondWrites adds the keys of conditional receiver writes whose callee turned out to write its receiver type.
+func resolveCondWrites(p *Program, mi *modInfo, s map[string]bool, sets map[*types.Func]map[string]bool) bool {
+	changed := false
+	for _, cw := range mi.condWrites {
+		writes := false
+		cs := p.calleeSet(cw.callee, sets)
+		if cs == nil {
+			if _, known := sets[cw.callee]; !known && p.ContractFor(cw.callee) == nil {
+				writes = true // unknown method: assume it writes its receiver
+			}
+		}
+		for k := range cs {
+			if k == "*" || strings.HasPrefix(k, cw.prefix) {
+				writes = true
+			}
+		}
+		if writes {
+			for k := range cw.keys {
+				if !s[k] {
+					s[k] = true
+					changed = true
+				}
+			}
+		}
+	}
+	return changed
 }
